@@ -199,17 +199,29 @@ func ReceiveSession(ctx context.Context, rw io.ReadWriter, state SessionState, n
 
 func setDeadline(ctx context.Context, conn net.Conn) context.CancelFunc {
 	cancelCtx, cancel := context.WithCancel(context.Background())
+	done := make(chan struct{})
+	var expired bool
 	go func() {
+		defer close(done)
 		select {
 		case <-ctx.Done():
+			// Leave the deadline in place until the returned function is called,
+			// otherwise only reads and writes that are blocked right now are
+			// interrupted and the next one blocks even though ctx is canceled.
+			expired = true
 			/* #nosec */
 			conn.SetDeadline(aLongTimeAgo)
-			/* #nosec */
-			conn.SetDeadline(time.Time{})
 		case <-cancelCtx.Done():
 		}
 	}()
-	return cancel
+	return func() {
+		cancel()
+		<-done
+		if expired {
+			/* #nosec */
+			conn.SetDeadline(time.Time{})
+		}
+	}
 }
 
 func setWriteDeadline(ctx context.Context, conn net.Conn) context.CancelFunc {
@@ -297,6 +309,12 @@ func negotiateSession(ctx context.Context, location, origin jid.JID, rw io.ReadW
 		}
 		mask, rw, data, err = negotiate(ctx, &s.in.Info, &s.out.Info, s, data)
 		if err != nil {
+			return s, err
+		}
+		// Canceling the context only interrupts reads and writes that are blocked
+		// at that moment, so check that it was not canceled at any other time
+		// during this step before reporting any progress.
+		if err = ctx.Err(); err != nil {
 			return s, err
 		}
 		if rw != nil {
